@@ -81,6 +81,19 @@ func (env *SpecEnv) quantSort(ty string) (string, types.Type) {
 	if _, ok := env.e.g().sliceElem[ty]; ok {
 		return ty, nil
 	}
+	if ty == "Slice_ref" {
+		// slice of pointers (references are integers)
+		return env.e.g().SortOf(types.NewSlice(types.Typ[types.Int])), nil
+	}
+	if strings.HasPrefix(ty, "Heap_") {
+		// the heap of cells of a named struct type, as a value (argument of ghost functions that read through pointers)
+		if es, et := env.namedSort(strings.TrimPrefix(ty, "Heap_")); et != nil {
+			return fmt.Sprintf("(Array Int %s)", es), nil
+		}
+	}
+	if ty == "Slice_Str" {
+		return env.e.g().SortOf(types.NewSlice(types.Typ[types.String])), types.NewSlice(types.Typ[types.String])
+	}
 	if strings.HasPrefix(ty, "Slice_") {
 		// slice sort named before any code mentioned it: declare it from its element type
 		if _, et := env.namedSort(strings.TrimPrefix(ty, "Slice_")); et != nil {
